@@ -69,7 +69,8 @@ fn judge<T: Tier, M: MatN<T, N> + InvT<T>, const N: usize>(ctx: &mut Ctx, e: [[T
             // Cramer's rule over the shadow field: the running error bound carries the conditioning
             if let Some(mn) = model::minverse_adj(me) {
                 let worst = flat_m(mn).iter().map(|x| T::tol(*x, 1.0)).fold(0.0, f64::max);
-                if worst > 1e-3 {
+                let size = flat_m(mn).iter().map(|x| x.approx().abs()).fold(0.0, f64::max);
+                if worst > 0.05 * size.max(1e-300) {
                     ctx.skip("ill-conditioned (float tier)");
                 } else {
                     eq_m::<T, N>(ctx, &key("invert"), n.arr(), mn);
@@ -452,7 +453,7 @@ fn all<T: Tier>(rep: &mut Report) {
 fn main() {
     let mut rep = Report::from_args(P);
     rep.assume("the determinant is multilinear of degree n, cofactors of degree n-1: the sparse 0/1 systems with support <= n decide them for all inputs for implementations of that degree profile (DESIGN 2.6)");
-    rep.assume("float tiers: invert() judged against Cramer's rule over a running-error shadow field; cases whose bound exceeds 1e-3 are skipped as ill-conditioned; the exact None <=> det = 0 dichotomy is decided in the rational tier");
+    rep.assume("float tiers: invert() judged against Cramer's rule over a running-error shadow field; cases whose bound exceeds 5% of the largest entry of the inverse are skipped as ill-conditioned; the exact None <=> det = 0 dichotomy is decided in the rational tier");
     all::<Ex>(&mut rep);
     all::<f64>(&mut rep);
     all::<f32>(&mut rep);
